@@ -46,7 +46,17 @@ def make_set(I, items):
     return I.st.alloc('set', out)
 
 
+def _atoms(x):
+    """SStr known to be sep.join(atoms) of atomic (non-empty, separator-free) opaque tokens: (sep, [names]) or None"""
+    if isinstance(x, SStr) and isinstance(x.parts, tuple) and len(x.parts) == 3 and x.parts[0] == 'atoms':
+        return x.parts[1], list(x.parts[2])
+    return None
+
+
 def _same(a, b):
+    if isinstance(a, SStr) and isinstance(b, SStr) and _atoms(a) and _atoms(b) and \
+            len(_atoms(a)[1]) == 1 and len(_atoms(b)[1]) == 1:
+        return _atoms(a)[1] == _atoms(b)[1]          # two atomic tokens are equal strings iff they are the same token
     if isinstance(a, (Closure, AbsFun, Builtin, Ref, SStr, ClassRef, SOpaque)) or \
        isinstance(b, (Closure, AbsFun, Builtin, Ref, SStr, ClassRef, SOpaque)):
         return a is b
@@ -577,15 +587,16 @@ def elementwise2(I, a, b, f):
             sy = [SV(z3.Select(c['arr'], k), c['ek']) for k in range(len(conc))]
             ia, ib = (sy, conc) if ia is None else (conc, sy)
         if la and lb:
+            # numpy broadcasting aligns trailing axes: a 2-d operand against a 1-d one works row by row
+            if ia and is_list(ia[0]) and ib and not is_list(ib[0]):
+                return I.st.alloc('clist', [elementwise2(I, r, b, f) for r in ia], nd=True)
+            if ib and is_list(ib[0]) and ia and not is_list(ia[0]):
+                return I.st.alloc('clist', [elementwise2(I, a, r, f) for r in ib], nd=True)
             if len(ia) != len(ib):
                 if len(ia) == 1:
                     ia = ia * len(ib)
                 elif len(ib) == 1:
                     ib = ib * len(ia)
-                elif ia and is_list(ia[0]) and not (ib and is_list(ib[0])):
-                    return I.st.alloc('clist', [elementwise2(I, r, b, f) for r in ia], nd=True)
-                elif ib and is_list(ib[0]) and not (ia and is_list(ia[0])):
-                    return I.st.alloc('clist', [elementwise2(I, a, r, f) for r in ib], nd=True)
                 else:
                     raise PyExc('ValueError', 'operands could not be broadcast')
             elif ia and is_list(ia[0]) and not is_list(ib[0]):
@@ -1176,7 +1187,10 @@ def container_method(I, obj, name):
         if name == 'index':
             return B(lambda I_, a, k: _index_of(I_, seq_items(I_, obj) if obj.kind == 'clist' else None, a[0], obj))
         if name == 'T':
-            return obj if not (obj.kind == 'clist' and st.heap[obj] and is_list(st.heap[obj][0])) else _unsup('transpose 2d')
+            if obj.kind == 'clist' and st.heap[obj] and is_list(st.heap[obj][0]):
+                from . import lib as _lib
+                return _lib.np_transpose(I, obj)
+            return obj
         if name in ('shape',):
             return (list_len(I, obj),)
         if name == 'astype':
@@ -1279,6 +1293,13 @@ def str_method(I, s, name):
     def B(f):
         return Builtin('str.%s' % name, f)
     if isinstance(s, SStr):
+        if name == 'split' and _atoms(s):
+            def split(I_, a, k):
+                sep, names = _atoms(s)
+                if len(a) != 1 or a[0] != sep:
+                    raise Unsupported('split of a token string by another separator')
+                return I_.st.alloc('clist', [SStr(nm, nonempty=True, parts=('atoms', sep, [nm])) for nm in names])
+            return B(split)
         if name in ('split', 'startswith', 'join', 'strip', 'replace', 'format', 'endswith', 'lower', 'upper'):
             raise Unsupported('string algebra on opaque string (.%s)' % name)
         raise PyExc('AttributeError', name)
@@ -1289,6 +1310,11 @@ def str_method(I, s, name):
                 raise Unsupported('join of symbolic sequence')
             if all(isinstance(x, str) for x in items):
                 return s.join(items)
+            if items and all(_atoms(x) is not None and _atoms(x)[0] == s for x in items):
+                names = []
+                for x in items:
+                    names.extend(_atoms(x)[1])
+                return SStr(I_.st.fresh_name('join'), nonempty=True, parts=('atoms', s, names))
             if not all(isinstance(x, (str, SStr)) for x in items):
                 raise PyExc('TypeError', 'join of non-strings')
             ne = any((x.nonempty if isinstance(x, SStr) else bool(x)) for x in items) or (len(items) > 1 and bool(s))
